@@ -306,7 +306,11 @@ def final_density_matrix(
             program = dephased
         elif ignore_measurement_results:
             # case 2: no classical control, only terminal measurement
-            program = measurement_transformers.dephase_measurements(circuit_like)
+            # Insert the noise first: it may depend on the measurement gates and on the moment
+            # structure, both of which dephasing changes.
+            noise_applied = circuit_like.with_noise(noise) if noise is not None else circuit_like
+            program = measurement_transformers.dephase_measurements(noise_applied)
+            noise = None
         else:
             # case 3: no measurement
             program = circuit_like
